@@ -16,6 +16,10 @@ type HeaderKV struct {
 	// with a non-canonical key) instead of through Header.Add. Only used for harmless names
 	// that the verifiers never look up with Header.Get.
 	Raw bool `json:"raw,omitempty"`
+	// Force: stored under the exact name even if another key folds to the same lower-case name
+	// (two map keys differing only in letter case; the encoders must refuse or at least behave
+	// deterministically). Used by C18 only.
+	Force bool `json:"force,omitempty"`
 }
 
 // BuildHeader inserts the fields with http.Header.Add (the repository's own calling
@@ -25,6 +29,10 @@ func BuildHeader(kvs []HeaderKV) http.Header {
 	keyOf := map[string]string{} // folded name -> map key in use (never two keys for one folded name)
 	for _, kv := range kvs {
 		if len(kv.Values) == 0 {
+			continue
+		}
+		if kv.Force {
+			h[kv.Name] = append(h[kv.Name], kv.Values...)
 			continue
 		}
 		f := strings.ToLower(kv.Name)
